@@ -519,6 +519,14 @@ func (i *Interp) callBuiltin(caller *frame, fn *ssa.Builtin, args []value) value
 		return n
 
 	case "close":
+		ch, _ := args[0].(*chanv)
+		if ch == nil {
+			panic(targetPanic{iface{i.P.rtErrType, "close of nil channel"}})
+		}
+		if ch.closed {
+			panic(targetPanic{iface{i.P.rtErrType, "close of closed channel"}})
+		}
+		ch.closed = true
 		return nil
 
 	case "delete":
@@ -690,4 +698,46 @@ func (i *Interp) unsafeElems(p value, n int) []value {
 		return i.unsafeElems(p.p, n)
 	}
 	panic(engineAbort{kind: "unsupported", msg: fmt.Sprintf("unsafe element pointer %T", p)})
+}
+
+// selectStmt picks the first ready case in source order (one legal choice).
+func (i *Interp) selectStmt(fr *frame, instr *ssa.Select, ci *cinstr) value {
+	chosen := -1
+	var recv value
+	recvOk := false
+	for k, st := range instr.States {
+		ch, _ := fr.get(&ci.ops[2*k]).(*chanv)
+		if ch == nil {
+			continue
+		}
+		if st.Dir == types.RecvOnly {
+			if len(ch.buf) > 0 {
+				chosen, recv, recvOk = k, ch.buf[0], true
+				ch.buf = ch.buf[1:]
+				break
+			}
+			if ch.closed {
+				chosen, recv, recvOk = k, zero(st.Chan.Type().Underlying().(*types.Chan).Elem()), false
+				break
+			}
+		} else if !ch.closed && len(ch.buf) < ch.cap {
+			ch.buf = append(ch.buf, fr.get(&ci.ops[2*k+1]))
+			chosen = k
+			break
+		}
+	}
+	if chosen < 0 && instr.Blocking {
+		panic(engineAbort{kind: "unsupported", msg: "select would block (sequential schedule)"})
+	}
+	r := tuple{chosen, recvOk}
+	for k, st := range instr.States {
+		if st.Dir == types.RecvOnly {
+			if k == chosen {
+				r = append(r, recv)
+			} else {
+				r = append(r, zero(st.Chan.Type().Underlying().(*types.Chan).Elem()))
+			}
+		}
+	}
+	return r
 }
